@@ -66,7 +66,7 @@ func c07Check(c C07Case) (r evid.Result) {
 		if c.Stage.Kind == "decolorize" && i < len(c.Plain) {
 			// By construction: exactly the plain chunks remain.
 			line = c.Plain[i]
-			if strings.Contains(string(rec.Line), "\x1b[") {
+			if strings.Contains(string(rec.Line), "\x1b[") || strings.Contains(string(rec.Line), "\u009b") {
 				nontrivial = true
 			}
 		}
@@ -139,7 +139,9 @@ func c07Gen(t *rapid.T) C07Case {
 			m := rapid.IntRange(0, 5).Draw(t, "chunks")
 			for j := 0; j < m; j++ {
 				if rapid.Bool().Draw(t, "sgr") {
-					sb.WriteString(rapid.SampledFrom([]string{"\x1b[31m", "\x1b[0m", "\x1b[1;32m", "\x1b[m", "\x1b[38;5;196m", "\x1b[38;2;1;2;3m", "\x1b[4;9m"}).Draw(t, "sgrseq"))
+					sb.WriteString(rapid.SampledFrom([]string{"\x1b[31m", "\x1b[0m", "\x1b[1;32m", "\x1b[m", "\x1b[38;5;196m", "\x1b[38;2;1;2;3m", "\x1b[4;9m",
+						// the single-character C1 CSI introducer U+009B
+						"\u009b31m", "\u009b0m", "\u009b1;32m"}).Draw(t, "sgrseq"))
 				}
 				chunk := rapid.SampledFrom([]string{"text", " ", "[31m", "m", "1;2", "[", "ünï", "0m", "x;y", "%", "e[0m"}).Draw(t, "chunk")
 				sb.WriteString(chunk)
